@@ -1,11 +1,12 @@
 """C07 — minimum-ADA and size limits hold for everything the builder emits (admission gates: E5 dominance + E4 who-may-write)."""
 import facts
+from e1_panicpath import dominators
 import fieldflow as ff
 import hirq as H
 import mustflow
 import mustpass as mp
 from mustpass import call_origin, field_origin, has_origin
-from ruleutil import find_fn
+from ruleutil import find_fn, direct_call_of
 
 TB = "builders::tx_builder::TransactionBuilder"
 
@@ -20,6 +21,53 @@ EXPLANATION = (
     "checked arithmetic; (MF) the required coin is data-derived from the serialized output size and the per-byte price. "
     "Not decided: the bound of the 3-step fixed-point iteration in calculate_ada (numeric); agreement of full_size with the signed size."
 )
+
+
+def fixpoint_rule(rep, F):
+    """calculate_ada: a returned coin was computed for an output whose coin field is at least as wide as the returned value"""
+    rep.rule("FIX-gate", "every success return of MinOutputAdaCalculator::calculate_ada returns, unchanged, the result of a calc_required_coin call that was made either (a) on an output whose coin is not less than that result (the not-less-than edge of the comparison with the same result) or (b) after the coin field was set to u64::MAX - so the priced size is never smaller than the size of the output that carries the returned coin")
+    fid = find_fn(rep, F, "MinOutputAdaCalculator::calculate_ada")
+    if not fid:
+        return
+    fn = F.fns[fid]
+    org = ff.Origins(F, fid)
+    n = 0
+    for bi, kind, loc in mp.success_stores(F, fid):
+        if kind != "ok":
+            continue
+        n += 1
+        rep.inst("FIX-gate")
+        ops = None
+        for st in fn["bbs"][bi]["st"]:
+            if st[1] == "=" and st[2] == "_0" and st[3][0] == "agg":
+                ops = st[3][4]
+        src = direct_call_of(fn, ops[0]) if ops else None
+        if not src or not src[1].endswith("calc_required_coin"):
+            rep.violation("FIX-gate", "calculate_ada|not-a-priced-result", "calculate_ada returns a value (%s) that is not directly the result of calc_required_coin: a coin remembered from an earlier, narrower sizing of the output can be returned" % facts.loc_str(loc, fn), {})
+            continue
+        cb = src[0]
+        ok = False
+        # (a) not-less-than edge of less_than(output.coin, this result)
+        for s, edge, d in mp.dominating_guards(F, fid, bi, org):
+            if d["kind"] == "call" and d["callee"].endswith("BigNum::less_than") and edge == "0" and not d["neg"]:
+                a1 = d["args"][1] if len(d["args"]) > 1 else []
+                if any(x.startswith("call:") and x.endswith("@%d" % cb) for x in a1) and mp.dominated_by(fn, s, cb):
+                    ok = True
+        # (b) the call is made after a store of u64::MAX into the coin field, in the same block or a dominating one that is outside loops
+        if not ok:
+            for bj in [cb] + list(dominators(fn, cb)):
+                for st in fn["bbs"][bj]["st"]:
+                    if st[1] == "=" and st[2].endswith("f:utils::Value:-:coin") and "TransactionOutput" in st[2]:
+                        src2 = st[3]
+                        if src2[0] == "use" and src2[1][0] in ("c", "m"):
+                            # the BigNum aggregate stored
+                            for st2 in fn["bbs"][bj]["st"]:
+                                if st2[1] == "=" and st2[2] == src2[1][1] and st2[3][0] == "agg" and st2[3][4] and st2[3][4][0][0] == "k" and str(st2[3][4][0][1]).startswith("18446744073709551615"):
+                                    if bj == cb:
+                                        ok = True
+        if not ok:
+            rep.violation("FIX-gate", "calculate_ada|ungated-return", "calculate_ada returns the result of a calc_required_coin call (%s) that was neither made on an output already holding at least that coin nor on one with the coin set to u64::MAX" % facts.loc_str(loc, fn), {})
+    rep.floor("success returns of calculate_ada", 2, n)
 
 
 def check(rep, F, tier, replay=None):
@@ -150,6 +198,7 @@ def check(rep, F, tier, replay=None):
         cs = [c for c in F.calls(fid) if (c.to or "").endswith("calc_size_cost")]
         if not cs or not has_origin(org.of_operand(cs[0].args[1]), call_origin("TransactionOutput::to_bytes")):
             rep.violation("K-overhead", "size-source", "calc_required_coin does not price the serialized size of the output (to_bytes().len())", {})
+    fixpoint_rule(rep, F)
     return rep.finish(
         EXPLANATION,
         ["min_ada_for_output's numeric bound (fixed point over the coin width) is not decided statically", "collateral return gates are C19's rules"],
